@@ -22,6 +22,7 @@ func stdCompress(b []byte) []byte {
 // C02: (encoder) Go Pack bytes == independent spec encoder bytes, byte for byte;
 // (decoder) spec-conformant frames over every nibble/flag/reserve/extreme are decoded to exactly the layout's field values.
 func genC02(e *emitter, tier string, seed uint64) map[string]interface{} {
+	defer flushUnstable(e, "C02")
 	rg := &rng{seed ^ 0x02}
 	thorough := tier == "thorough"
 	types := []string{"request", "response", "push"}
@@ -279,6 +280,16 @@ func genC02(e *emitter, tier string, seed uint64) map[string]interface{} {
 				}
 			}
 		}
+	}
+	// v2 metadata maps whose encoding lands on 65533..65538 bytes, the sorted-last pair being a big one: the frame must stay
+	// self-consistent (its metadata_len field is the length of the block it carries, at most 65535, whole pairs only)
+	for total := 65533; total <= 65538; total++ {
+		p2 := &pkt{version: 2, typ: "push", cmd: 9, body: genBody(rg, 5)}
+		fixed2 := len(encStr([]byte("a"))) + len(encStr([]byte("x"))) + len(encStr([]byte("m"))) + 2 + len(encStr([]byte("z"))) + 2
+		rest2 := total - fixed2
+		p2.pairs = [][2]item{{item{data: []byte("z")}, item{rep: true, b: 'Z', n: rest2 - rest2/2}}, {item{data: []byte("a")}, item{data: []byte("x")}},
+			{item{data: []byte("m")}, item{rep: true, b: 'M', n: rest2 / 2}}}
+		overBudgetCase(e, p2, total)
 	}
 	return map[string]interface{}{}
 }
